@@ -605,6 +605,8 @@ func (p *prop) Run(line string) core.Outcome {
 		return p.runCf(f)
 	} else if len(f) == 9 && f[0] == "fs" {
 		return p.runFs(f)
+	} else if len(f) == 9 && f[0] == "px" {
+		return p.runPx(f)
 	}
 	k, ok := parseCase(line)
 	if !ok {
